@@ -16,6 +16,13 @@ int main(int argc, char** argv) {
         uint32_t n = (uint32_t)r.range(16, M.thorough() ? 256 : 160);
         if (r.chance(0.25)) n |= 1;     // odd sizes too
         uint32_t nb = (uint32_t)r.range(1, 5);
+        // scale: one case in sixteen is large in one dimension - more than 512 cells per axis, or more than 256 bunches on a small mesh
+        // (slab-wise / pairwise sums over a row, index types of per-bunch helpers)
+        if ((c / 3) % 16 == 7) {
+            static const uint32_t big_n[] = {513, 600, 768, 1024}; static const uint32_t big_nb[] = {257, 300, 600};
+            if (r.chance(0.5)) { n = big_n[r.range(0, 3)]; nb = (uint32_t)r.range(1, 2); } else { nb = big_nb[r.range(0, 2)]; n = (uint32_t)r.range(16, 32); }
+            M.ev("scale_cases");
+        }
         bool unequal = (c % 8 == 7);    // different cell size in q and p (class reported separately)
         double L = r.logu(4, 40), Lp = unequal ? L * r.uni(0.4, 2.5) : L;
         double qc = r.chance(0.5) ? 0 : r.uni(-0.2, 0.2) * L, pc = r.chance(0.5) ? 0 : r.uni(-0.2, 0.2) * Lp;
